@@ -243,6 +243,9 @@ def main():
     # 8. verdict + search
     violation = None
     if oracle_fails:
+        # headline: the first failure that states a property clause on a concrete input; a crash record of an
+        # in-process stream ("regenerated from its id") carries less and goes after them (all are kept in n_failures)
+        oracle_fails.sort(key=lambda f: 1 if str(f.get("what", "")).startswith("crash:") else 0)
         f = oracle_fails[0]
         violation = {"failed": "oracle", "on": "implementation", "case": f.get("case"), "what": f.get("what"),
                      "input": f.get("input"), "n_failures": len(oracle_fails), "others": oracle_fails[1:5]}
